@@ -1,5 +1,5 @@
 """C17 - hosts are tried in query-plan order and exhaustion is reported (spec/Request.tla)."""
-from checks import _request
+from checks import _request, _driver
 
 META = {
     "property_id": "C17",
@@ -18,7 +18,10 @@ META = {
 
 def run(ctx):
     _request.run(ctx, "C17")
+    _driver.system_tier(ctx, "C17")     # thorough: whole-driver runs against spec/Driver.tla, rejections owned by C17
 
 
 def replay(ctx, obj):
+    if _driver.is_system_replay(obj):
+        return _driver.replay_system(ctx, obj)
     _request.replay(ctx, "C17", obj)
